@@ -1,0 +1,7 @@
+//go:build !verif
+
+package seat_manager
+
+func verifYield(label string) {}
+
+func verifOrder(seats []int, alternateSeats []int) {}
